@@ -9,6 +9,7 @@ rearranged-genotype equality).
 from __future__ import annotations
 
 import math
+from fractions import Fraction
 
 import numpy as np
 
@@ -30,8 +31,11 @@ THEOREMS = [
     "MCHap.C04.lik_structural",
     "MCHap.C04.logLik_eq_log_lik",
 ]
-RULE = ("cases: random (ploidy 1..8, 0..6 SNVs with 2..4 alleles, 0..8 unique reads with counts, NaN gaps, zero-probability "
-        "non-alleles, hard 0/1 calls) x genotype (excess of duplicated haplotypes) x rearrangement (index vector, interval). "
+RULE = ("cases: random (ploidy 1..8 and 16..128, 0..6 SNVs with 2..4 alleles, 0..8 unique reads with counts up to 3 / 60 / 1000 or "
+        "read_counts=None, NaN gaps over a whole SNV or in a single cell, zero-probability non-alleles, a last axis wider than the "
+        "largest allele number, hard 0/1 calls) x genotype (excess of duplicated haplotypes) x rearrangement (index vector contiguous or a "
+        "strided int64 / int8 label column; interval as tuple, ndarray row or None); 150..400 unique reads and counts above 60 against "
+        "the Fraction oracle only; loci of 40..95 SNVs. "
         "Non-trivial: ploidy >= 2, a NaN cell, a read with count >= 2, and >= 2 SNVs. Distinct by canonical request line.")
 
 
@@ -67,6 +71,29 @@ def run(tier, replay=None):
     r = C.rng(PROP)
     n_cases = {"warm": 5, "quick": 400, "thorough": 4000}[tier]
 
+    def exact_loglik(reads, counts, g):
+        """the property's formula, independently: sum over reads of count x log(mean over haplotypes of the product over SNVs),
+        each mean an exact Fraction (no power is taken, so counts of any size are fine)"""
+        n_reads, n_base, _ = reads.shape
+        total = 0.0
+        for i in range(n_reads):
+            rp = Fraction(0)
+            for h in g:
+                pr = Fraction(1)
+                for j in range(n_base):
+                    v = reads[i, j, h[j]]
+                    if not math.isnan(v):
+                        pr *= Fraction(float(v))
+                rp += pr
+            rp /= len(g)
+            c = 1 if counts is None else int(counts[i])
+            if rp == 0:
+                if c == 0:
+                    return math.nan      # the code gives -inf * 0; not generated (see assumptions)
+                return -math.inf
+            total += c * C.frac_log(rp)
+        return total
+
     cases = []
     # long loci: many SNVs, confident reads far from the genotype (tiny but representable likelihoods)
     for i in range({"warm": 1, "quick": 30, "thorough": 300}[tier]):
@@ -88,96 +115,180 @@ def run(tier, replay=None):
             counts[:] = 1
         idx = list(range(ploidy)); r.shuffle(idx)
         lo = r.randint(0, n_base); hi = r.randint(lo, n_base)
-        cases.append((ploidy, n_base, n_alleles, g, reads, counts, idx, lo, hi))
-    for i in range(n_cases):
-        boundary = r.random() < 0.12
+        cases.append((ploidy, n_base, n_alleles, g, reads, counts, idx, lo, hi, {"stream": "long-locus"}))
+    n_deep = {"warm": 1, "quick": 12, "thorough": 120}[tier]
+    for i in range(n_cases + n_deep):
+        deep = i >= n_cases            # 150-400 unique reads: the Fraction oracle only
+        boundary = r.random() < 0.12 and not deep
         ploidy = r.choice([1, 2, 2, 3, 4, 4, 6, 8])
+        if r.random() < 0.08 and not deep:
+            ploidy = r.choice([16, 24, 48, 100, 128])
         n_base = r.choice([0, 1]) if boundary and r.random() < 0.4 else r.randint(1, 6)
         n_alleles = G.gen_n_alleles(r, n_base)
         g = G.gen_genotype(r, ploidy, n_alleles)
         n_reads = 0 if boundary and r.random() < 0.3 else r.randint(1, 8)
+        if deep:
+            n_reads = r.randint(150, 400)
+        max_count = r.choice([3, 3, 60, 1000])
         reads, counts = G.gen_reads(r, n_alleles, n_reads, haps=g if r.random() < 0.7 else None,
-                                    gap=1.0 if boundary and r.random() < 0.2 else r.choice([0.0, 0.2, 0.5]))
+                                    gap=1.0 if boundary and r.random() < 0.2 else r.choice([0.0, 0.2, 0.5]), max_count=max_count)
+        var = {"stream": "deep" if deep else "random", "max_count": max_count}
+        # a NaN in a single cell (one allele of one SNV of one read) instead of a whole SNV
+        if n_reads and n_base and r.random() < 0.25:
+            for _ in range(r.randint(1, 3)):
+                i_, j_ = r.randrange(n_reads), r.randrange(n_base)
+                reads[i_, j_, r.randrange(n_alleles[j_])] = np.nan
+            var["single-cell-nan"] = True
+        # a last axis wider than the largest number of alleles (columns no genotype can index)
+        if r.random() < 0.2:
+            pad = r.randint(1, 3)
+            fill = r.choice([0.0, np.nan])
+            reads = np.concatenate([reads, np.full(reads.shape[:2] + (pad,), fill)], axis=2)
+            var["padded-last-axis"] = pad
+        # read_counts=None: every read counts once
+        if r.random() < 0.15:
+            counts = np.ones(len(counts), dtype=np.int64)
+            var["read_counts"] = "None"
         idx = [r.randrange(ploidy) for _ in range(ploidy)]
         if r.random() < 0.5:
             idx = list(range(ploidy)); r.shuffle(idx)
         lo = r.randint(0, n_base); hi = r.randint(lo, n_base)
         if r.random() < 0.2:
             lo, hi = 0, n_base
-        cases.append((ploidy, n_base, n_alleles, g, reads, counts, idx, lo, hi))
+        # how the interval and the index vector are handed over: the assemble sampler passes a row of an int64 (n, 2)
+        # array as interval and a strided column of its (ploidy, 2) label array as indices
+        var["interval"] = r.choice(["tuple", "tuple", "ndarray", "none"])
+        if var["interval"] == "none":
+            lo, hi = 0, n_base
+        var["indices"] = r.choice(["contiguous-int64", "strided-int64", "strided-int8"] if ploidy <= 127 else ["contiguous-int64", "strided-int64"])
+        cases.append((ploidy, n_base, n_alleles, g, reads, counts, idx, lo, hi, var))
 
-    lines = []
-    for (ploidy, n_base, n_alleles, g, reads, counts, idx, lo, hi) in cases:
+    lines, line_of = [], {}
+    for k, (ploidy, n_base, n_alleles, g, reads, counts, idx, lo, hi, var) in enumerate(cases):
+        if var["stream"] == "deep" or (len(counts) and int(counts.max()) > 60):
+            continue      # exact rationals of these sizes are out of reach of the model driver: Fraction oracle only
         rt = G.reads_tokens(reads, counts)
         gt = G.genotype_tokens(g)
+        line_of[k] = len(lines)
         lines.append(" ".join(["lik"] + rt + gt))
         lines.append(" ".join(["lik.struct"] + rt + gt + [str(x) for x in idx] + [str(lo), str(hi)]))
     ans = drv.ask(lines)
 
-    for k, (ploidy, n_base, n_alleles, g, reads, counts, idx, lo, hi) in enumerate(cases):
+    for k, (ploidy, n_base, n_alleles, g, reads, counts, idx, lo, hi, var) in enumerate(cases):
         garr = np.array(g, dtype=np.int8).reshape(ploidy, n_base)
-        iarr = np.array(idx, dtype=np.int64)
-        m_lik = C.parse_rat(ans[2 * k])
-        m_struct_s, m_g_s = (ans[2 * k + 1].split(" ", 1) + [""])[:2]
-        m_struct = C.parse_rat(m_struct_s)
-        m_llk = llk_tag(C.frac_log(m_lik))
-        m_sllk = llk_tag(C.frac_log(m_struct))
+        # independent rearrangement: inside [lo, hi) haplotype h takes the alleles of haplotype idx[h]
+        g_re = [[g[idx[h]][j] if lo <= j < hi else g[h][j] for j in range(n_base)] for h in range(ploidy)]
+        if var.get("indices", "contiguous-int64") == "contiguous-int64":
+            iarr = np.array(idx, dtype=np.int64)
+        else:
+            lab = np.zeros((ploidy, 2), dtype=np.int64 if var["indices"] == "strided-int64" else np.int8)
+            lab[:, 0] = idx; lab[:, 1] = [r.randrange(ploidy) for _ in range(ploidy)]
+            iarr = lab[:, 0]
+        ikind = var.get("interval", "tuple")
+        interval = None if ikind == "none" else ((lo, hi) if ikind == "tuple" else np.array([lo, hi], dtype=np.int64))
+        rc = None if var.get("read_counts") == "None" else counts
+        has_model = k in line_of
         has_nan = bool(np.isnan(reads).any())
-        nontriv = ploidy >= 2 and has_nan and bool((counts >= 2).any()) and n_base >= 2
-        chk.count(f"ploidy={ploidy}"); chk.count(f"n_base={n_base}"); chk.count(f"n_reads={len(counts)}")
-        if m_lik == 0:
-            chk.count("zero-likelihood")
-        case = {"ploidy": ploidy, "n_alleles": n_alleles, "genotype": g, "counts": counts.tolist(),
-                "reads": [[[None if math.isnan(x) else x for x in row] for row in rd] for rd in reads.tolist()],
-                "idx": idx, "interval": [lo, hi]}
+        nontriv = ploidy >= 2 and has_nan and bool((counts >= 2).any() or rc is None) and n_base >= 2
+        chk.count(f"ploidy={ploidy if ploidy <= 8 else '16..128'}"); chk.count(f"n_base={n_base}")
+        chk.count(f"n_reads={len(counts) if len(counts) <= 8 else '150..400'}")
+        chk.count(f"stream={var['stream']}"); chk.count(f"interval-as={ikind}"); chk.count(f"indices-as={var.get('indices', 'contiguous-int64')}")
+        chk.count(f"max_count={var.get('max_count', 2)}"); chk.count("read_counts=" + ("None" if rc is None else "array"))
+        for key in ("single-cell-nan", "padded-last-axis"):
+            if key in var:
+                chk.count(key)
+        if not has_model:
+            chk.count("model-skipped(Fraction oracle only)")
+        small = reads.size <= 400
+        case = {"ploidy": ploidy, "n_alleles": n_alleles, "genotype": g if ploidy <= 12 else g[:12] + ["..."], "counts": counts.tolist()[:40],
+                "reads": [[[None if math.isnan(x) else x for x in row] for row in rd] for rd in reads.tolist()] if small else f"array {reads.shape}",
+                "idx": idx, "interval": [lo, hi], "variant": var}
         # implementation, jitted and py_func
         vals = {}
-        for name, f in (("jit", log_likelihood), ("py", log_likelihood.py_func)):
-            vals[name] = llk_tag(f(reads, garr, read_counts=counts))
-        for name, f in (("jit", log_likelihood_structural_change), ("py", log_likelihood_structural_change.py_func)):
-            vals["s" + name] = llk_tag(f(reads, garr, iarr, interval=(lo, hi), read_counts=counts))
-        chk.case(lines[2 * k], nontriv, sample={"request": lines[2 * k][:300], "impl": vals["jit"], "model_log": m_llk})
-        for name in ("jit", "py"):
-            if not same(vals[name], m_llk):
-                chk.disagreement(f"log_likelihood ({name}) != log(model lik)", {**case, "impl": vals[name], "model": m_llk})
-            if not same(vals["s" + name], m_sllk):
-                chk.disagreement(f"log_likelihood_structural_change ({name}) != log(model)", {**case, "impl": vals['s' + name], "model": m_sllk})
-        # structural_change itself
-        g2 = garr.copy()
-        structural_change(g2, iarr, interval=(lo, hi))
+        try:
+            for name, f in (("jit", log_likelihood), ("py", log_likelihood.py_func)):
+                vals[name] = llk_tag(f(reads, garr, read_counts=rc))
+            for name, f in (("jit", log_likelihood_structural_change), ("py", log_likelihood_structural_change.py_func)):
+                vals["s" + name] = llk_tag(f(reads, garr, iarr, interval=interval, read_counts=rc))
+            g2 = garr.copy()
+            structural_change(g2, iarr, interval=interval)
+        except Exception as e:   # noqa: BLE001
+            chk.violation(f"a likelihood entry point raises on a valid input: {type(e).__name__}: {e}", case, "C04/raises")
+            continue
         impl_g = "|".join(" ".join(str(int(a)) for a in row) for row in g2)
-        if impl_g != m_g_s and n_base > 0:
-            chk.disagreement("structural_change impl != model", {**case, "impl": impl_g, "model": m_g_s})
+        if has_model:
+            l0 = line_of[k]
+            m_lik = C.parse_rat(ans[l0])
+            m_struct_s, m_g_s = (ans[l0 + 1].split(" ", 1) + [""])[:2]
+            m_llk = llk_tag(C.frac_log(m_lik))
+            m_sllk = llk_tag(C.frac_log(C.parse_rat(m_struct_s)))
+            if m_lik == 0:
+                chk.count("zero-likelihood")
+            chk.case(lines[l0], nontriv, sample={"request": lines[l0][:300], "impl": vals["jit"], "model_log": m_llk})
+            for name in ("jit", "py"):
+                if not same(vals[name], m_llk):
+                    chk.disagreement(f"log_likelihood ({name}) != log(model lik)", {**case, "impl": vals[name], "model": m_llk})
+                if not same(vals["s" + name], m_sllk):
+                    chk.disagreement(f"log_likelihood_structural_change ({name}) != log(model)", {**case, "impl": vals['s' + name], "model": m_sllk})
+            if impl_g != m_g_s and n_base > 0:
+                chk.disagreement("structural_change impl != model", {**case, "impl": impl_g, "model": m_g_s})
+        else:
+            chk.case(("oracle-only", k, ploidy, n_base, len(counts), var.get("max_count")), nontriv)
         # ---- oracles on the implementation (property statement evaluated independently)
-        truth = llk_tag(C.frac_log(G.exact_lik(reads, counts, g)))
-        if not same(vals["jit"], truth):
-            chk.violation("log_likelihood differs from the documented mixture formula",
-                          {**case, "impl": vals["jit"], "expected": truth}, "C04/log_likelihood/formula")
+        truth = llk_tag(exact_loglik(reads, rc, g))
+        for name in ("jit", "py"):
+            if not same(vals[name], truth):
+                chk.violation("log_likelihood differs from the documented mixture formula",
+                              {**case, "which": name, "impl": vals[name], "expected": truth}, "C04/log_likelihood/formula")
+                break
+        if n_base > 0 and g2.tolist() != g_re:
+            chk.violation("structural_change does not give every haplotype the alleles of its index haplotype inside the interval "
+                          "(and leave the rest unchanged)", {**case, "impl": g2.tolist()[:12], "expected": g_re[:12]}, "C04/structural_change")
+        truth_s = llk_tag(exact_loglik(reads, rc, g_re))
+        for name in ("sjit", "spy"):
+            if not same(vals[name], truth_s):
+                chk.violation("likelihood of a proposed rearrangement != mixture formula on the rearranged genotype",
+                              {**case, "which": name, "proposal": vals[name], "expected": truth_s}, "C04/structural/formula")
+                break
         # haplotype order
         perm = list(range(ploidy)); r.shuffle(perm)
-        v2 = llk_tag(log_likelihood(reads, garr[perm], read_counts=counts))
+        v2 = llk_tag(log_likelihood(reads, garr[perm], read_counts=rc))
         if not same(v2, vals["jit"]):
             chk.violation("log_likelihood depends on the order of haplotypes",
                           {**case, "perm": perm, "a": vals["jit"], "b": v2}, "C04/log_likelihood/hap-order")
         # read order
         if len(counts) > 1:
             rp = list(range(len(counts))); r.shuffle(rp)
-            v3 = llk_tag(log_likelihood(reads[rp], garr, read_counts=counts[rp]))
+            v3 = llk_tag(log_likelihood(reads[rp], garr, read_counts=None if rc is None else counts[rp]))
             if not same(v3, vals["jit"]):
                 chk.violation("log_likelihood depends on the order of reads",
-                              {**case, "perm": rp, "a": vals["jit"], "b": v3}, "C04/log_likelihood/read-order")
-        # count k == k copies
+                              {**case, "perm": rp[:40], "a": vals["jit"], "b": v3}, "C04/log_likelihood/read-order")
+        # count k == k copies (for both entry points); read_counts=None == counts of one
         if len(counts) > 0:
             rep = np.repeat(np.arange(len(counts)), counts)
             v4 = llk_tag(log_likelihood(reads[rep], garr, read_counts=None)) if len(rep) else 0.0
             if not same(v4, vals["jit"]):
                 chk.violation("a read with count k is not treated like k identical reads",
                               {**case, "a": vals["jit"], "expanded": v4}, "C04/log_likelihood/counts")
+            v4s = llk_tag(log_likelihood_structural_change(reads[rep], garr, iarr, interval=interval, read_counts=None)) if len(rep) else 0.0
+            if not same(v4s, vals["sjit"]):
+                chk.violation("the rearrangement likelihood does not treat a read with count k like k identical reads "
+                              "(read_counts=None on the expanded reads)", {**case, "a": vals["sjit"], "expanded": v4s}, "C04/structural/counts")
+            if rc is None:
+                v6 = llk_tag(log_likelihood_structural_change(reads, garr, iarr, interval=interval, read_counts=counts))
+                if not same(v6, vals["sjit"]):
+                    chk.violation("read_counts=None is not the same as a count of one per read (rearrangement likelihood)",
+                                  {**case, "none": vals["sjit"], "ones": v6}, "C04/structural/counts-none")
         # rearrangement equivalence
-        v5 = llk_tag(log_likelihood(reads, g2, read_counts=counts))
+        v5 = llk_tag(log_likelihood(reads, g2, read_counts=rc))
         if not same(vals["sjit"], v5):
             chk.violation("likelihood of a proposed rearrangement != likelihood of the rearranged genotype",
                           {**case, "proposal": vals["sjit"], "rearranged": v5}, "C04/structural/equivalence")
+        # the way the indices / the interval are handed over is immaterial
+        v7 = llk_tag(log_likelihood_structural_change(reads, garr, np.array(idx, dtype=np.int64), interval=(lo, hi), read_counts=rc))
+        if not same(v7, vals["sjit"]):
+            chk.violation("the rearrangement likelihood depends on how interval / indices are passed (None vs tuple vs ndarray row; strided label column)",
+                          {**case, "as_passed": vals["sjit"], "tuple+contiguous": v7}, "C04/structural/argument-form")
 
     # ---------------- allele-indexed wrappers (calling / pedigree)
     n2 = max(3, n_cases // 3)
